@@ -326,6 +326,10 @@ def timeout_base(rng: random.Random, i: int) -> dict:
     # make sure the root has at least one awaiting handler with a child that itself awaits a grandchild
     sc['handlers'].insert(0, {'bus': 0, 'pat': 0, 'kind': 'async', 'prog': [['sleep', rng.choice([0.05, 0.1])], ['disp', 1, rng.randrange(nb), 'fire', None, {}], ['disp', 1, rng.randrange(nb), 'await', rng.choice([None, 0, 0.05]), {}], ['sleep', 0.1]], 'cleanup': rng.choice([0, 0, 0.15, 0.4])})
     sc['handlers'].append({'bus': 0, 'pat': 0, 'kind': 'async', 'prog': [['sleep', 0.05]]})
+    if rng.random() < 0.3:
+        # top-level code waits for ONE handler result of the root (`await event.event_results[id]`) while that handler is still
+        # pending behind an earlier one; the result's timeout clock starts with the wait, the handler's own only when it starts
+        sc['actors'].append([['sleep', rng.choice([0.01, 0.06])], ['await_hresult', 0, 0, rng.choice([1, 2])], ['sleep', 0.3], ['access', 0]])
     if rng.random() < 0.25:
         # an event object created and dispatched by top-level code (queued behind the root) that a handler of the root passes on to
         # a further bus and awaits: it has several handlers there, so a timeout can hit while the first is running
